@@ -1565,6 +1565,7 @@ def replay(ctx, rp):
       import re
       fv = option_field_values(); OO = _PG['typed']['OO']
       picks = {m.group(1): int(m.group(2)) for m in re.finditer(r'(\w+)=#(\d+)', c['label'])}
+      picks.setdefault('r', 0)
       hits = option_oracle(lambda: OO(**{f: fv[f][i]() for f, i in picks.items()}), c['opts'], tuple(c.get('exclude', [])), c['label'])
   elif part == 'bare-name':
     d = os.path.join(ctx.workdir, 'bare'); os.makedirs(d, exist_ok=True)
